@@ -198,26 +198,77 @@ func runC08(c *Ctx) {
 		g := newIG(m, try, nil)
 		bad := ""
 		nret := 0
-		for _, rn := range g.Returns() {
-			nret++
-			r0 := g.Ins[rn].(*ssa.Return).Results[0]
-			okForm := false
-			if b, ok := r0.(*ssa.BinOp); ok && b.Op == token.EQL && isZeroConst(b.Y) {
-				if call, ok := b.X.(*ssa.Call); ok {
-					if name, ok := isAtomic(call.Common()); ok && name == "SwapUint32" && stateArg(call.Common().Args[0], try) {
-						if k, ok := constUint64(call.Common().Args[1]); ok && k != 0 {
-							okForm = true
-						} else {
-							bad = "TryToAcquire swaps in zero: it can never take the lock and releases a lock somebody else holds"
-						}
-					}
+		// the deciding read-modify-write: Swap(&state, non-zero) (took it iff the
+		// old value was 0) or CompareAndSwap(&state, 0, non-zero) (took it iff true)
+		var rmw *ssa.Call
+		isCAS := false
+		for _, in := range g.Ins {
+			call, ok := in.(*ssa.Call)
+			if !ok {
+				continue
+			}
+			name, ok := isAtomic(call.Common())
+			if !ok || !stateArg(call.Common().Args[0], try) {
+				continue
+			}
+			switch name {
+			case "SwapUint32":
+				if k, ok := constUint64(call.Common().Args[1]); ok && k != 0 {
+					rmw = call
+				} else {
+					bad = "TryToAcquire swaps in zero: it can never take the lock and releases a lock somebody else holds"
+				}
+			case "CompareAndSwapUint32":
+				o, ok1 := constUint64(call.Common().Args[1])
+				n, ok2 := constUint64(call.Common().Args[2])
+				if ok1 && ok2 && o == 0 && n != 0 {
+					rmw, isCAS = call, true
 				}
 			}
-			if call, ok := r0.(*ssa.Call); ok {
-				if name, ok := isAtomic(call.Common()); ok && name == "CompareAndSwapUint32" && stateArg(call.Common().Args[0], try) {
-					o, ok1 := constUint64(call.Common().Args[1])
-					n, ok2 := constUint64(call.Common().Args[2])
-					okForm = ok1 && ok2 && o == 0 && n != 0
+		}
+		// took(v): +1 if v is "the lock was taken", -1 if it is its negation
+		var took func(v ssa.Value) int
+		took = func(v ssa.Value) int {
+			if rmw == nil {
+				return 0
+			}
+			if u, ok := v.(*ssa.UnOp); ok && u.Op == token.NOT {
+				return -took(u.X)
+			}
+			if isCAS {
+				if v == ssa.Value(rmw) {
+					return 1
+				}
+				return 0
+			}
+			if b, ok := v.(*ssa.BinOp); ok && (b.Op == token.EQL || b.Op == token.NEQ) {
+				if b.X == ssa.Value(rmw) && isZeroConst(b.Y) || b.Y == ssa.Value(rmw) && isZeroConst(b.X) {
+					if b.Op == token.EQL {
+						return 1
+					}
+					return -1
+				}
+			}
+			return 0
+		}
+		for _, rc := range g.ReturnCases() {
+			nret++
+			r0 := rc.Vals[0]
+			okForm := took(r0) == 1
+			if b, isC := constBool(r0); isC && rmw != nil {
+				// a constant result on the side of the test that it states
+				for _, f := range g.CaseFacts(rc) {
+					var t int
+					switch {
+					case f.Y == nil && f.X == ssa.Value(rmw) && isCAS:
+						t = map[bool]int{true: 1, false: -1}[f.Op == token.EQL]
+					case f.Y != nil && !isCAS && (f.Op == token.EQL || f.Op == token.NEQ) &&
+						(f.X == ssa.Value(rmw) && isZeroConst(f.Y) || f.Y == ssa.Value(rmw) && isZeroConst(f.X)):
+						t = map[bool]int{true: 1, false: -1}[f.Op == token.EQL]
+					}
+					if t != 0 && (t == 1) == b {
+						okForm = true
+					}
 				}
 			}
 			if !okForm && bad == "" {
@@ -306,6 +357,24 @@ func runC08(c *Ctx) {
 		}
 	}
 	known := map[string]bool{"MOVQ": true, "MOVL": true, "XCHGL": true, "CMPXCHGL": true, "TESTL": true, "TESTQ": true, "JNZ": true, "JZ": true, "JNE": true, "JEQ": true, "JMP": true, "PAUSE": true, "DECL": true, "CALL": true, "RET": true}
+	// two-operand ALU instructions (Plan 9 order: src, dst), one-operand ones, and compares
+	alu2 := map[string]bool{"XORL": true, "XORQ": true, "ADDL": true, "ADDQ": true, "SUBL": true, "SUBQ": true, "ANDL": true, "ANDQ": true, "ORL": true, "ORQ": true,
+		"SHLL": true, "SHLQ": true, "SHRL": true, "SHRQ": true, "LEAQ": true, "LEAL": true, "MOVLQZX": true, "MOVBLZX": true, "MOVWLZX": true}
+	alu1 := map[string]bool{"INCL": true, "INCQ": true, "DECQ": true, "NEGL": true, "NEGQ": true, "NOTL": true, "NOTQ": true}
+	cmps := map[string]bool{"CMPL": true, "CMPQ": true, "NOP": true}
+	condJumps := map[string]bool{"JNZ": true, "JZ": true, "JNE": true, "JEQ": true, "JLT": true, "JLE": true, "JGT": true, "JGE": true, "JHI": true, "JLS": true, "JCS": true, "JCC": true, "JMI": true, "JPL": true}
+	for k := range alu2 {
+		known[k] = true
+	}
+	for k := range alu1 {
+		known[k] = true
+	}
+	for k := range cmps {
+		known[k] = true
+	}
+	for k := range condJumps {
+		known[k] = true
+	}
 	succ := make([][]int, len(ins))
 	type jedge struct{ taken, fall int }
 	jumps := map[int]jedge{}
@@ -324,7 +393,7 @@ func runC08(c *Ctx) {
 				continue
 			}
 			succ[i] = []int{t}
-		case "JNZ", "JZ", "JNE", "JEQ":
+		case "JNZ", "JZ", "JNE", "JEQ", "JLT", "JLE", "JGT", "JGE", "JHI", "JLS", "JCS", "JCC", "JMI", "JPL":
 			t, ok := label[x.args[0]]
 			if !ok || i+1 >= len(ins) {
 				undecided = "jump to unknown label " + x.args[0]
@@ -381,6 +450,15 @@ func runC08(c *Ctx) {
 				regs = append(regs, x.args[0])
 			} else {
 				mem = x.args[0]
+			}
+		default:
+			if alu2[x.op] || alu1[x.op] {
+				d := x.args[len(x.args)-1]
+				if isReg(d) {
+					regs = append(regs, d)
+				} else {
+					mem = d
+				}
 			}
 		case "CALL":
 			regs = []string{"AX", "BX", "CX", "DX", "SI", "DI", "R8", "R9", "R10", "R11", "R12", "R13", "R14", "R15"}
@@ -462,6 +540,35 @@ func runC08(c *Ctx) {
 			}
 		}
 		for d := range reaching(xreg, xi) {
+			if d >= 0 && ins[d].op == "MOVL" && strings.HasSuffix(ins[d].args[0], "(FP)") {
+				// loaded from an argument: every Go call site must pass a non-zero constant for it
+				name := ins[d].args[0]
+				if k := strings.IndexAny(name, "+"); k > 0 {
+					name = name[:k]
+				}
+				idx := -1
+				for i := 0; i < arch.Signature.Params().Len(); i++ {
+					if arch.Signature.Params().At(i).Name() == name {
+						idx = i
+					}
+				}
+				sites := m.callSites(arch)
+				okArg := idx >= 0 && len(sites) > 0
+				for _, cs := range sites {
+					cc := callCommon(cs)
+					if cc == nil || idx >= len(cc.Args) {
+						okArg = false
+						continue
+					}
+					if k, ok := constUint64(cc.Args[idx]); !ok || k == 0 || k > 0xffffffff {
+						okArg = false
+					}
+				}
+				if !okArg {
+					bad = "the value exchanged into the lock word comes from an argument that is not a non-zero constant at every call"
+				}
+				continue
+			}
 			if d < 0 || ins[d].op != "MOVL" || !strings.HasPrefix(ins[d].args[0], "$") {
 				bad = "the register exchanged into the lock word is not loaded with an immediate on every path"
 				continue
